@@ -27,6 +27,11 @@ def configs(tier):
             out.append(dict(kind=kind, J0=2, d=1, time_first=True, full=True, x64=True))
         if kind != "nonstatio":       # residual with two components: ranked by the sum of squares
             out.append(dict(kind=kind, J0=0, d=(2 if kind == "statio" else 1), ncomp=2, x64=True))
+        # a generator that already refined (J0 = 1) is handed to a new solve(): init_rar runs again, then the next step
+        out.append(dict(kind=kind, J0=1, d=(2 if kind == "statio" else 1), reinit=True, x64=True))
+    # a system of two ODEs: ranked by the sum over the equations of the squared residuals
+    for J0 in (0, 1):
+        out.append(dict(kind="ode", J0=J0, d=1, system=True, x64=True))
     return out
 
 
@@ -35,7 +40,8 @@ def run(cfg, R):
     kind, J0, d = cfg["kind"], cfg["J0"], cfg["d"]
     ncomp = cfg.get("ncomp", 1)
     full = cfg.get("full", False)
-    data, loss, params, sizes = build(kind, 0, 1, d, ncomp=ncomp, time_first=cfg.get("time_first", False))
+    system = cfg.get("system", False)
+    data, loss, params, sizes = build(kind, 0, 1, d, ncomp=ncomp, time_first=cfg.get("time_first", False), system=system)
     # a pre-state after J0 steps in which some store cannot hold another full set: the step must leave everything untouched
     full = full or any(n0 + (J0 + 1) * sel > ntot for ntot, n0, sel in sizes.values())
     data, t_, f_ = init_rar(data)
@@ -44,6 +50,8 @@ def run(cfg, R):
     with stubs_.stubbed():
         for i in range(J0):
             loss, params, data = trigger_rar(i, loss, params, data, t_, f_)
+        if cfg.get("reinit"):
+            data, t_, f_ = init_rar(data)          # what a second jinns.solve call does with the returned generator
     R.note(functions=["jinns.solver._rar.rar_step_true (via trigger_rar)", "jinns.data.*.get_batch with p (reshuffle)", "DynamicLoss.evaluate (residuals of the candidates)"],
            stubs_=["jax.random contracts incl. zero-probability-last for choice with p", "argsort/top_k -> sorted-permutation contract"])
     rp = {k: int(v) for k, v in data.rar_parameters.items()}
@@ -55,7 +63,10 @@ def run(cfg, R):
         if kind == "ode":
             _, sub = jax.random.split(data.key)
             cands = {"times": data.sample_in_time_domain(sub, rp["sample_size_times"])}
-            res = jax.vmap(lambda t: loss.dynamic_loss.evaluate(t, loss.u, params))(cands["times"])
+            if system:
+                res = jnp.concatenate([jax.vmap(lambda t, k=k: loss.dynamic_loss_dict[k].evaluate(t, loss.u_dict, params))(cands["times"]) for k in loss.dynamic_loss_dict], axis=-1)
+            else:
+                res = jax.vmap(lambda t: loss.dynamic_loss.evaluate(t, loss.u, params))(cands["times"])
         elif kind == "statio":
             _, *subs = jax.random.split(data.key, data.dim + 1)
             cands = {"omega": data.sample_in_omega_domain(subs if data.dim > 1 else subs[0], rp["sample_size_omega"])}
@@ -76,7 +87,7 @@ def run(cfg, R):
         shuf, batch = big.get_batch()
         return cands, res, post, shuf
 
-    name = f"{kind}/J0={J0}" + (f"/ncomp{ncomp}" if ncomp > 1 else "") + ("/store-full" if full else "")
+    name = f"{kind}/J0={J0}" + (f"/ncomp{ncomp}" if ncomp > 1 else "") + ("/store-full" if full else "") + ("/init_rar-again" if cfg.get("reinit") else "") + ("/system-2eq" if system else "")
     # symbolic: the store contents, the PRNG key, the network and the equation parameters; everything else of the generator
     # (counters, probability masks, sizes, domain bounds -- arrays after a jitted step) is the concrete pre-state
     conc = lambda nm, l: nm.startswith("a_0_") and nm not in ("a_0_times", "a_0_omega", "a_0_key")
